@@ -244,15 +244,16 @@ impl UnstableBlocks {
 //@ spec
 //@| ensures r == self.next_block_headers@.contains_key(header_hash(*block_header)),
 //@end
-    // [trusted:assumed-contract] UnstableBlocks::block_depth (unstable_blocks.rs:212; `find_mut` returns `&mut`, outside Verus — it only
-    // reads): the number of edges from the anchor to the block, an error iff the block is not in the tree
-    #[verifier::external_body]
-    fn block_depth(&mut self, block_hash: &BlockHash) -> (r: Result<u32, BlockDoesNotExtendTree>)
-        ensures
-            *final(self) == *old(self),
-            r.is_ok() <==> old(self).tree.contains(*block_hash),
-            r matches Ok(d) ==> d == old(self).tree.idx_path_to(*block_hash).len(),
-    { unimplemented!() }
+// C14: the depth of a block = the number of edges from the anchor to the FIRST block of the tree with that hash (any branch, not
+// only the served one); an error iff the block is not in the tree; nothing is modified
+//@extract file=canister/src/unstable_blocks.rs in="impl UnstableBlocks" item="fn block_depth" props=C14
+//@ ret r
+//@ spec
+//@| ensures
+//@|     *final(self) == *old(self),
+//@|     r.is_ok() <==> old(self).tree.contains(*block_hash),
+//@|     r matches Ok(d) ==> d == old(self).tree.idx_path_to(*block_hash).len(),
+//@end
 // C14: the height recorded for an announced header is its parent's height + 1, the parent being an announced header or a block of
 // the tree (whose height is the stable height plus its distance from the anchor); unconnected headers are refused and change nothing
 //@extract file=canister/src/unstable_blocks.rs in="impl UnstableBlocks" item="fn insert_next_block_header" props=C14
@@ -309,7 +310,7 @@ fn vp_note_offered(n: &mut NextBlockHeaders)
         }
     }
 }
-//@extract file=canister/src/state.rs item="fn insert_next_block_headers" props=C10,C13
+//@extract file=canister/src/state.rs item="fn insert_next_block_headers" props=C10,C13,C14,C20
 //@ rewrite R4 "for block_header_blob in next_block_headers\.iter\(\) \{" => "let mut vp_i: usize = 0;\n    while vp_i < next_block_headers.len() {\n        let block_header_blob = &next_block_headers[vp_i];\n        vp_i = vp_i + 1;"
 //@ rewrite R10 "let validation_result =\s*(ValidationContext::new_with_next_block_headers\(state, &block_header\))\s*\.map_err\(\|e\| vp_format\(\)\)\s*\.and_then\(\|store\| \{(.*?)\n                \}\);" => "let validation_result: Result<(), String> = match \1 { Err(e) => Err(vp_format()), Ok(store) => {\2\n                } };"
 //@ rewrite R10 "\.validate_header\(&block_header, duration_since_epoch\(\)\)\s*\.map_err\(\|e\| vp_format\(\)\)" => ".validate_header(&block_header, duration_since_epoch()).map_err(|e: ValidateHeaderError| -> (vp_s: String) { vp_format() })"
